@@ -8,6 +8,9 @@
 (*     exactly n backticks (none: the run is literal text);                *)
 (*   "<" opens an autolink (scheme of 2-32 characters, colon, no space or  *)
 (*     angle bracket up to ">") or an HTML open / closing tag;             *)
+(*   "&" opens an entity or numeric character reference (section 2.5):     *)
+(*     "&name;" with a name of the HTML5 table, "&#" 1-7 digits ";",       *)
+(*     "&#x" 1-6 hexadecimal digits ";" - anything else is literal text;   *)
 (* what these constructs cover is protected: a "*" or "_" inside is no     *)
 (* delimiter, but it still is a punctuation character for the flanking     *)
 (* rules of its neighbours.  The delimiter algorithm of Emphasis.tla then  *)
@@ -59,7 +62,42 @@ HtmlTagEnd(r, i) ==
              k == a + SpaceRun(r, a) IN
          IF nm = 0 THEN 0 ELSE IF At(r, k) = ">" THEN k ELSE IF At(r, k) = "/" /\ At(r, k + 1) = ">" THEN k + 1 ELSE 0
 
-(* the scan: a sequence of segments [k, s, e] that tile the text; k in "t" (one character of text), "esc", "code", "auto", "html" *)
+(* entity and numeric character references.  The table holds the HTML5 names that can be spelled with the letters of the raw
+   alphabets (generated from the WHATWG table by tools/gen_entity_table.py, which the harness re-runs and compares); a character
+   outside printable ASCII is written {U+XXXX} in the expected text, and the harness spells the observed text the same way *)
+Named == "amp" :> "&" @@ "ap" :> "{U+2248}" @@ "lap" :> "{U+2A85}" @@ "lat" :> "{U+2AAB}" @@ "ll" :> "{U+226A}" @@ "lt" :> "<" @@ "malt" :> "{U+2720}" @@ "map" :> "{U+21A6}" @@ "mp" :> "{U+2213}" @@ "pm" :> "{U+00B1}" @@ "xmap" :> "{U+27FC}"
+EntLetters == {"m", "p", "l", "t", "x"}            \* further letters of the entity alphabets
+DigitVal == "0" :> 0 @@ "1" :> 1 @@ "2" :> 2 @@ "3" :> 3 @@ "4" :> 4 @@ "5" :> 5 @@ "6" :> 6 @@ "7" :> 7 @@ "8" :> 8 @@ "9" :> 9
+HexVal == DigitVal @@ "a" :> 10 @@ "b" :> 11 @@ "c" :> 12 @@ "d" :> 13 @@ "e" :> 14 @@ "f" :> 15 @@ "A" :> 10 @@ "B" :> 11 @@ "C" :> 12 @@ "D" :> 13 @@ "E" :> 14 @@ "F" :> 15
+NameCh == Letters \cup EntLetters \cup DOMAIN DigitVal
+RECURSIVE RunIn(_, _, _)
+RunIn(r, i, S) == IF At(r, i) \in S THEN 1 + RunIn(r, i + 1, S) ELSE 0
+(* position of the closing ";" or 0 *)
+EntityEnd(r, i) ==
+    IF At(r, i + 1) = "#" THEN
+        IF At(r, i + 2) \in {"x", "X"}
+        THEN LET h == RunIn(r, i + 3, DOMAIN HexVal) IN IF h >= 1 /\ h <= 6 /\ At(r, i + 3 + h) = ";" THEN i + 3 + h ELSE 0
+        ELSE LET d == RunIn(r, i + 2, DOMAIN DigitVal) IN IF d >= 1 /\ d <= 7 /\ At(r, i + 2 + d) = ";" THEN i + 2 + d ELSE 0
+    ELSE LET n == RunIn(r, i + 1, NameCh) IN
+         IF n >= 1 /\ At(r, i + 1 + n) = ";" /\ Flat(SubSeq(r, i + 1, i + n)) \in DOMAIN Named THEN i + 1 + n ELSE 0
+RECURSIVE NumVal(_, _, _)
+NumVal(sq, base, acc) == IF sq = << >> THEN acc ELSE NumVal(Tail(sq), base, acc * base + HexVal[Head(sq)])
+Ascii == " !\"#$%&'()*+,-./0123456789:;<=>?@ABCDEFGHIJKLMNOPQRSTUVWXYZ[\\]^_`abcdefghijklmnopqrstuvwxyz{|}~"      \* code points 32..126
+HexDigits == "0123456789ABCDEF"
+RECURSIVE HexOf(_)
+HexOf(n) == IF n < 16 THEN SubSeq(HexDigits, n + 1, n + 1) ELSE HexOf(n \div 16) \o SubSeq(HexDigits, (n % 16) + 1, (n % 16) + 1)
+RECURSIVE Pad4(_)
+Pad4(h) == IF Len(h) >= 4 THEN h ELSE Pad4("0" \o h)
+(* the character a code point stands for: 0, surrogates and anything beyond U+10FFFF give the replacement character *)
+CharOf(n) == IF n = 0 \/ n > 1114111 \/ (n >= 55296 /\ n <= 57343) THEN "{U+FFFD}"
+             ELSE IF n >= 32 /\ n <= 126 THEN SubSeq(Ascii, n - 31, n - 31)
+             ELSE "{U+" \o Pad4(HexOf(n)) \o "}"
+EntityText(r, g) ==
+    IF r[g.s + 1] = "#" THEN
+        IF r[g.s + 2] \in {"x", "X"} THEN CharOf(NumVal(SubSeq(r, g.s + 3, g.e - 1), 16, 0)) ELSE CharOf(NumVal(SubSeq(r, g.s + 2, g.e - 1), 10, 0))
+    ELSE Named[Flat(SubSeq(r, g.s + 1, g.e - 1))]
+
+(* the scan: a sequence of segments [k, s, e] that tile the text; k in "t" (one character of text), "esc", "code", "auto", "html", "ent" *)
 Seg(k, s, e) == [k |-> k, s |-> s, e |-> e]
 RECURSIVE ScanFrom(_, _)
 ScanFrom(r, i) ==
@@ -71,6 +109,7 @@ ScanFrom(r, i) ==
         ELSE [q \in 1..n |-> Seg("t", i + q - 1, i + q - 1)] \o ScanFrom(r, i + n)
     ELSE IF r[i] = "<" /\ AutolinkEnd(r, i) > 0 THEN <<Seg("auto", i, AutolinkEnd(r, i))>> \o ScanFrom(r, AutolinkEnd(r, i) + 1)
     ELSE IF r[i] = "<" /\ HtmlTagEnd(r, i) > 0 THEN <<Seg("html", i, HtmlTagEnd(r, i))>> \o ScanFrom(r, HtmlTagEnd(r, i) + 1)
+    ELSE IF r[i] = "&" /\ EntityEnd(r, i) > 0 THEN <<Seg("ent", i, EntityEnd(r, i))>> \o ScanFrom(r, EntityEnd(r, i) + 1)
     ELSE <<Seg("t", i, i)>> \o ScanFrom(r, i + 1)
 Scan(r) == ScanFrom(r, 1)
 
@@ -82,7 +121,7 @@ ClassOf(r, sc, p) ==
     LET c == r[p] IN
     IF c \in {"*", "_"} THEN (IF Protected(sc, p) THEN "." ELSE c)
     ELSE IF c = " " THEN " "
-    ELSE IF c \in Letters THEN "a"
+    ELSE IF c \in NameCh THEN "a"
     ELSE "."
 Classes(r) == LET sc == Scan(r) IN [p \in 1..Len(r) |-> ClassOf(r, sc, p)]
 
@@ -92,8 +131,12 @@ I1 == {"a", " ", "*", "`", "\\"}
 I2 == {"a", "*", "`", "<", ">", "/"}
 I3 == {"a", ":", "<", ">", "*", "`"}
 I4 == {"a", " ", "`", "<", ">", "\\", "_"}
+E1 == {"&", "#", "3", "5", ";", "a", "x"}        \* numeric references, decimal and hexadecimal
+E2 == {"&", "a", "m", "p", ";", "l", "t"}        \* named references
+E3 == {"&", "#", "4", "2", ";", "*"}             \* a "*" written as a reference is no delimiter
+E4 == {"&", "l", "t", ";", "`", "\\", "a"}       \* references in code spans and behind backslashes
 RawStrings == UNION {[1..n -> RawAlphabet] : n \in 1..RawMaxLen}
-RawProper(r) == r[1] # " " /\ r[Len(r)] # " "
+RawProper(r) == r[1] # " " /\ r[Len(r)] # " " /\ (\E q \in 1..Len(r) : r[q] # "#")       \* (the text is observed as the content of an ATX heading)
 RawShard(r) == IF IOEnv.SHARD = "-" THEN TRUE ELSE r[1] = IOEnv.SHARD
 
 IInit ==
@@ -119,6 +162,7 @@ RenderPos(r, sc, p) ==
     CASE g.k = "t"    -> EscS(r[p])
       [] g.k = "esc"  -> IF p = g.s THEN "" ELSE EscS(r[p])
       [] g.k = "code" -> IF p = g.s THEN "<code>" \o EscS(CodeContent(r, g)) \o "</code>" ELSE ""
+      [] g.k = "ent"  -> IF p = g.s THEN EscS(EntityText(r, g)) ELSE ""
       [] g.k = "auto" -> IF p = g.s THEN "<a href=\"" \o EscS(Sub(r, g.s + 1, g.e - 1)) \o "\">" \o EscS(Sub(r, g.s + 1, g.e - 1)) \o "</a>" ELSE ""
       [] OTHER        -> IF p = g.s THEN Sub(r, g.s, g.e) ELSE ""
 Tag(t) == CASE t = -1 -> "<em>" [] t = -2 -> "</em>" [] t = -3 -> "<strong>" [] OTHER -> "</strong>"
